@@ -111,6 +111,9 @@ def run(ctx):
     sentences += list(found.values())
     for si, sent in enumerate(sentences):
         pws = [b"", b"TREZOR", bytes([0xE2, 0x82, 0xAC, 0xFF, 0x00])] if si < 2 or not q else [b"pw"]
+        if si == 1:
+            # passphrases that begin with / contain the salt prefix itself, and passphrases with leading or trailing blanks
+            pws += [b"mnemonic", b"mnemonic phrase", b"my mnemonic", b" x", b"x ", b"x\n"]
         if si == 0:
             # byte passphrases that are well-formed UTF-8 but not NFKD-normal (the salt is the bytes as given, whatever they decode to)
             pws += ["caf\u00e9".encode(), "a\u00a0b".encode(), "\ufb01n".encode(), "\uff21\uff22".encode(), "\ud55c\uae00".encode(), "\u212b".encode()]
@@ -135,6 +138,16 @@ def run(ctx):
     a = outcome(hd.HDPrivateKey.from_mnemonic, " ".join(w[:4] for w in ws), b"x")
     b_ = outcome(hd.HDPrivateKey.from_mnemonic, sentences[0], b"x")
     cases.append({"id": "pfx", "kind": "eq", "a": [ord(c) for c in a[1].xprv()] if a[0] == "ok" else [0], "b": [ord(c) for c in b_[1].xprv()] if b_[0] == "ok" else [1], "what": "prefix-mnemonic-gives-different-master-key"})
+    # sentences written partly in full and partly as four-letter prefixes (every mixture gives the master key of the full sentence)
+    for mj in range(4 if q else 24):
+        ws2 = sentences[mj % 2].split()
+        mixed = [w_ if (rng.random() < 0.5 or len(w_) <= 4) else w_[:4] for w_ in ws2]
+        if mj == 0:
+            mixed = [w_[:4] if k_ == len(ws2) - 1 else w_ for k_, w_ in enumerate(ws2)]        # only the last word abbreviated
+        a = outcome(hd.HDPrivateKey.from_mnemonic, " ".join(mixed), b"y")
+        b_ = outcome(hd.HDPrivateKey.from_mnemonic, sentences[mj % 2], b"y")
+        cases.append({"id": "mix%d" % mj, "kind": "eq", "a": [ord(c) for c in a[1].xprv()] if a[0] == "ok" else [0], "b": [ord(c) for c in b_[1].xprv()] if b_[0] == "ok" else [1],
+                      "what": "partly-abbreviated-mnemonic-gives-different-master-key"})
     # PBKDF2 structure at small round counts, from the HMAC rows the object really computed
     for pi, (rounds, dklen, plen) in enumerate([(1, 64, 5), (2, 64, 127), (3, 100, 128), (16, 130, 129), (1, 1, 0), (2, 128, 200)]):
         P, S = rb(plen), rb(rng.choice([0, 8, 40]))
